@@ -306,7 +306,11 @@ impl Kinematics for OPWKinematics {
     }
 
     fn kinematic_singularity(&self, joints: &Joints) -> Option<Singularity> {
-        if is_close_to_multiple_of_pi(joints[J5], SINGULARITY_ANGLE_THR) {
+        // The axes of J4 and J6 are collinear when the model angle of J5 (after sign
+        // correction and offset) is a multiple of PI.
+        let p = &self.parameters;
+        let q5 = joints[J5] * p.sign_corrections[J5] as f64 - p.offsets[J5];
+        if is_close_to_multiple_of_pi(q5, SINGULARITY_ANGLE_THR) {
             Some(Singularity::A)
         } else {
             None
@@ -789,8 +793,9 @@ fn is_close_to_multiple_of_pi(joint_value: f64, threshold: f64) -> bool {
 
     // Normalize angle within [0, 2*PI)
     let normalized_angle = joint_value.rem_euclid(2.0 * PI);
-    // Check if the normalized angle is close to 0 or PI
+    // Check if the normalized angle is close to 0 (from either side) or PI
     normalized_angle < threshold ||
+        (2.0 * PI - normalized_angle) < threshold ||
         (PI - normalized_angle).abs() < threshold
 }
 
